@@ -20,6 +20,8 @@ type c02Case struct {
 	Stream []byte `json:"stream"`
 	Splits []int  `json:"splits,omitempty"`
 	Stride int    `json:"stride,omitempty"`
+	// EOFWithData: the reader reports io.EOF together with the last bytes
+	EOFWithData bool `json:"eof_with_data,omitempty"`
 }
 
 func c02Values() []resp.Value {
@@ -46,7 +48,10 @@ func c02Values() []resp.Value {
 
 // c02Check parses stream under the given delivery script and compares with want.
 func c02Check(stream []byte, want []resp.Value, splits []int, stride int) (clause, detail string) {
-	r := seq.NewChunkReader(stream, splits, stride)
+	return c02CheckWith(seq.NewChunkReader(stream, splits, stride), want)
+}
+
+func c02CheckWith(r *seq.ChunkReader, want []resp.Value) (clause, detail string) {
 	parser := proto.NewParserWithReader(r)
 	for i := 0; i <= len(want); i++ {
 		var m *proto.Message
@@ -104,6 +109,32 @@ func c02Run(c *fw.Ctx) {
 		clause, detail := c02Check(stream, want, splits, stride)
 		if clause != "" {
 			c.Violation("C02|"+kind+"|"+clause, detail+fmt.Sprintf(" stream=%s splits=%v stride=%d", trunc(stream, 80), splits, stride), c02Case{Stream: stream, Splits: splits, Stride: stride})
+		}
+	}
+	// a reader that reports the end of the stream together with the last data: every
+	// sequence of 1..2 values, whole, byte by byte and under every 2-way split
+	for a := 0; a < len(vals); a++ {
+		for b := -1; b < len(vals); b++ {
+			if !c.Mine() {
+				continue
+			}
+			stream, want := append([]byte{}, enc[a]...), []resp.Value{vals[a]}
+			if b >= 0 {
+				stream, want = append(stream, enc[b]...), append(want, vals[b])
+			}
+			var scripts [][2]interface{}
+			scripts = append(scripts, [2]interface{}{[]int(nil), 0}, [2]interface{}{[]int(nil), 1})
+			for k := 1; k < len(stream); k++ {
+				scripts = append(scripts, [2]interface{}{[]int{k}, 0})
+			}
+			for _, sc := range scripts {
+				splits, stride := sc[0].([]int), sc[1].(int)
+				c.Eval()
+				c.Nontrivial()
+				if clause, detail := c02CheckWith(seq.NewChunkReaderEOFWithData(stream, splits, stride), want); clause != "" {
+					c.Violation("C02|eof-with-data|"+clause, detail+fmt.Sprintf(" (the reader reports io.EOF together with the last bytes) stream=%s splits=%v stride=%d", trunc(stream, 80), splits, stride), c02Case{Stream: stream, Splits: splits, Stride: stride, EOFWithData: true})
+				}
+			}
 		}
 	}
 	var seqs func(f func(idx []int))
@@ -343,6 +374,9 @@ func c02Replay(raw json.RawMessage) (string, bool, error) {
 		return "", false, fmt.Errorf("replay stream is not canonical: %v", derr)
 	}
 	clause, detail := c02Check(cs.Stream, want, cs.Splits, cs.Stride)
+	if cs.EOFWithData {
+		clause, detail = c02CheckWith(seq.NewChunkReaderEOFWithData(cs.Stream, cs.Splits, cs.Stride), want)
+	}
 	return fmt.Sprintf("stream=%s splits=%v stride=%d clause=%q %s", trunc(cs.Stream, 200), cs.Splits, cs.Stride, clause, detail), clause != "", nil
 }
 
@@ -352,7 +386,7 @@ func init() {
 		Level: "exploration",
 		Rule:  "streams = all concatenations of 1..3 values from a 40-value representative set (every type; CRLF/prefix-looking bulk bodies; empty/null bulks; empty, nested, mixed arrays; multi-digit lengths and counts); delivery scripts = whole, EVERY 2-way split offset, every 3-way split for streams <=48 bytes (thorough <=96, plus every 4-way split for streams <=28 bytes and 20736 four-value sequences), strides 1/2/3/5/7, split after every CR. Long streams: 127..1100 copies of one value (empty and nested arrays, nil, empty bulk, integer, command) followed by values of every kind through one parser, whole and strides 1 and 7. Size ladder: a bulk string of every length 2^k-1, 2^k, 2^k+1 (k=3..16, thorough 17) and 10^k-1, 10^k, 10^k+1 (k=1..4, thorough 5), with CRLF/header-looking content, plain content, and inside a command array, followed by two more values: whole, every 2-way split within 10 (thorough 40) bytes of each structural position (value start, end of the length header, end of the payload, end of each value) and around every 2^k stream offset >= 4096 (thorough: every offset for lengths <= 5000), strides 1/2/3/4096/32768. A case (stream, script) is non-trivial when at least one split falls strictly inside a value.",
 		Assumptions: []string{
-			"Read never returns (0,nil) or (n>0,EOF): neither net.TCPConn nor tls.Conn does",
+			"Read never returns (0,nil); (n>0, io.EOF) on the last bytes is exercised for all sequences of 1..2 values (crypto/tls up to TLS 1.2 does that)",
 			"random k-way partitions of the quantifier are not claimed",
 			"no assertion about how many bytes the parser requests; only the values returned",
 		},
